@@ -960,3 +960,353 @@ theorem newF_fuel : ∀ (fuel fuel' : Nat) (s : Str), s.length < fuel → s.leng
       rw [findForeignKey_congr hr, findComponent_congr hr, findVariable_congr hr]
 
 end I18nVerif.Parse
+
+namespace I18nVerif
+open Str
+
+namespace Ranges
+theorem newSimple_np (t : RangeTy) (s : Str) : (newSimple t s).isPanic = false := by
+  unfold newSimple
+  simp only
+  repeat' split
+  all_goals first
+    | rfl
+    | (rename_i hq; repeat' split at hq
+       all_goals simp at hq)
+
+theorem newPiece_np (t : RangeTy) (s : Str) : (newPiece t s).isPanic = false := by
+  unfold newPiece
+  simp only
+  split
+  · rfl
+  · exact newSimple_np _ _
+
+theorem new_go_np (t : RangeTy) : ∀ (l : List Str) (acc : List Range), (new.go t l acc).isPanic = false := by
+  intro l
+  induction l with
+  | nil => intro acc; rfl
+  | cons p ps ih =>
+    intro acc
+    simp only [new.go]
+    have := newPiece_np t p
+    split
+    · exact ih _
+    · rfl
+    · rename_i q hq; rw [hq] at this; simp at this
+
+theorem new_np (t : RangeTy) (s : Str) : (Ranges.new t s).isPanic = false := by
+  unfold Ranges.new
+  simp only
+  split
+  · rfl
+  · split
+    · exact new_go_np _ _ _
+    · exact newSimple_np _ _
+end Ranges
+
+namespace Decode
+
+mutual
+theorem rangeSpec_np (t : RangeTy) : ∀ j : J, (rangeSpec t j).isPanic = false
+  | .str s => by simp only [rangeSpec]; exact Ranges.new_np t s
+  | .unsigned n => by
+    simp only [rangeSpec]; repeat' split
+    all_goals rfl
+  | .signed i => by
+    simp only [rangeSpec]; repeat' split
+    all_goals rfl
+  | .float d => by
+    simp only [rangeSpec]; repeat' split
+    all_goals rfl
+  | .arr l => by simp only [rangeSpec]; exact rangeSeq_np t l
+  | .null => by simp [rangeSpec]
+  | .bool _ => by simp [rangeSpec]
+  | .obj _ => by simp [rangeSpec]
+theorem rangeSeq_np (t : RangeTy) : ∀ l : List J, (rangeSpec.rangeSeq t l).isPanic = false
+  | [] => by simp [rangeSpec.rangeSeq]
+  | first :: rest => by
+    have h1 := rangeSpec_np t first
+    have h2 := rangeList_np t rest
+    simp only [rangeSpec.rangeSeq]
+    repeat' split
+    all_goals simp_all
+theorem rangeList_np (t : RangeTy) : ∀ l : List J, (rangeSpec.rangeList t l).isPanic = false
+  | [] => by simp [rangeSpec.rangeList]
+  | x :: xs => by
+    have h1 := rangeSpec_np t x
+    have h2 := rangeList_np t xs
+    simp only [rangeSpec.rangeList]
+    repeat' split
+    all_goals simp_all
+end
+
+theorem structFields_np : ∀ (l : List (Str × J)) (c v : Option J), (structFields l c v).isPanic = false := by
+  intro l
+  induction l with
+  | nil => intro c v; rfl
+  | cons p rest ih =>
+    intro c v
+    obtain ⟨k, x⟩ := p
+    simp only [structFields]
+    repeat' split
+    all_goals first | rfl | exact ih _ _
+
+end Decode
+end I18nVerif
+
+namespace I18nVerif
+open Str
+namespace Decode
+
+theorem size_pos (j : J) : 0 < J.size j := by
+  cases j <;> simp [J.size] <;> omega
+
+theorem mem_sizeL {x : J} : ∀ {l : List J}, x ∈ l → J.size x ≤ J.sizeL l
+  | [], h => by simp at h
+  | y :: ys, h => by
+    simp only [List.mem_cons] at h
+    simp only [J.sizeL]
+    rcases h with rfl | h
+    · omega
+    · have := mem_sizeL h; omega
+
+theorem mem_sizeO {k : Str} {x : J} : ∀ {l : List (Str × J)}, (k, x) ∈ l → J.size x ≤ J.sizeO l
+  | [], h => by simp at h
+  | (k', y) :: ys, h => by
+    simp only [List.mem_cons, Prod.mk.injEq] at h
+    simp only [J.sizeO]
+    rcases h with ⟨_, rfl⟩ | h
+    · omega
+    · have := mem_sizeO h; omega
+
+theorem structFields_mem : ∀ (l : List (Str × J)) (c0 v0 c v : Option J),
+    structFields l c0 v0 = .ok (c, v) → ∀ vj, v = some vj → v0 = some vj ∨ ∃ k, (k, vj) ∈ l := by
+  intro l
+  induction l with
+  | nil =>
+    intro c0 v0 c v h vj hv
+    simp only [structFields, Res.ok.injEq, Prod.mk.injEq] at h
+    left; rw [h.2, hv]
+  | cons p rest ih =>
+    intro c0 v0 c v h vj hv
+    obtain ⟨k, x⟩ := p
+    simp only [structFields] at h
+    split at h
+    · split at h
+      · simp at h
+      · rcases ih _ _ _ _ h vj hv with h' | ⟨k', h'⟩
+        · left; exact h'
+        · right; exact ⟨k', by simp [h']⟩
+    · split at h
+      · split at h
+        · simp at h
+        · rcases ih _ _ _ _ h vj hv with h' | ⟨k', h'⟩
+          · simp only [Option.some.injEq] at h'
+            right; exact ⟨k, by simp [h']⟩
+          · right; exact ⟨k', by simp [h']⟩
+      · simp at h
+
+theorem pairs_np (pair : RangeTy → J → Res (Range × PV)) (t : RangeTy) : ∀ (l : List J),
+    (∀ x, x ∈ l → (pair t x).isPanic = false) → (value.pairs pair t l).isPanic = false := by
+  intro l
+  induction l with
+  | nil => intro _; simp [value.pairs]
+  | cons x xs ih =>
+    intro h
+    have h1 := h x (by simp)
+    have h2 := ih (fun y hy => h y (by simp [hy]))
+    simp only [value.pairs]
+    repeat' split
+    all_goals simp_all
+
+theorem localeKeys_np (fuel : Nat) (top : Str)
+    (ih : ∀ (top : Str) (inRange : Bool) (key : Str) (j : J), J.size j < fuel → (value fuel top inRange key j).isPanic = false) :
+    ∀ (l : List (Str × J)) (acc : List (Str × PV)), J.sizeO l < fuel →
+      (value.localeKeys fuel top l acc).isPanic = false := by
+  intro l
+  induction l with
+  | nil => intro acc _; simp [value.localeKeys]
+  | cons p rest ihl =>
+    intro acc hs
+    obtain ⟨k, x⟩ := p
+    simp only [J.sizeO] at hs
+    simp only [value.localeKeys]
+    split
+    · rfl
+    · rename_i key' _
+      have := ih top false key' x (by omega)
+      split
+      · rfl
+      · rename_i q hq; rw [hq] at this; simp at this
+      · exact ihl _ (by omega)
+
+/-- the `pair` closure of `Decode.value` (one `(range, value)` pair), as a named function -/
+def pairF (fuel : Nat) (top : Str) (t : RangeTy) (x : J) : Res (Range × PV) :=
+  match x with
+  | .obj fields =>
+    match structFields fields none none with
+    | .err e => .err e
+    | .panic p => .panic p
+    | .ok (c, v) =>
+      match v with
+      | none =>
+        match c with
+        | some cj => match rangeSpec t cj with
+          | .err e => .err e
+          | .panic p => .panic p
+          | .ok _ => .err "Serde"
+        | none => .err "Serde"
+      | some vj =>
+        match c with
+        | none =>
+          match value fuel top true [] vj with
+          | .ok pv => .ok (.fallback, pv)
+          | .err e => .err e
+          | .panic p => .panic p
+        | some cj =>
+          match rangeSpec t cj, value fuel top true [] vj with
+          | .ok r, .ok pv => .ok (r, pv)
+          | .panic p, _ => .panic p
+          | _, .panic p => .panic p
+          | .err e, .ok _ => .err e
+          | .ok _, .err e => .err e
+          | .err e, .err _ => .err e
+  | .arr (vj :: counts) =>
+    match value fuel top true [] vj with
+    | .err e => .err e
+    | .panic p => .panic p
+    | .ok pv =>
+      match rangeSpec.rangeSeq t counts with
+      | .ok r => .ok (r, pv)
+      | .err e => .err e
+      | .panic p => .panic p
+  | _ => .err "Serde"
+
+theorem pairF_np (fuel : Nat) (top : Str)
+    (ih : ∀ (top : Str) (inRange : Bool) (key : Str) (j : J), J.size j < fuel → (value fuel top inRange key j).isPanic = false)
+    (t : RangeTy) (x : J) (hx : J.size x ≤ fuel) : (pairF fuel top t x).isPanic = false := by
+  unfold pairF
+  split
+  · rename_i fields
+    simp only [J.size] at hx
+    have h1 := structFields_np fields none none
+    split
+    · rfl
+    · rename_i q hq; rw [hq] at h1; simp at h1
+    · rename_i c v hok
+      split
+      · split
+        · rename_i cj
+          have := rangeSpec_np t cj
+          split
+          · rfl
+          · rename_i q hq; rw [hq] at this; simp at this
+          · rfl
+        · rfl
+      · rename_i vj
+        have hv : (value fuel top true [] vj).isPanic = false := by
+          apply ih
+          rcases structFields_mem _ _ _ _ _ hok vj rfl with h | ⟨k, h⟩
+          · simp at h
+          · have := mem_sizeO h; omega
+        split
+        · split
+          · rfl
+          · rfl
+          · rename_i q hq; rw [hq] at hv; simp at hv
+        · rename_i cj
+          have hr := rangeSpec_np t cj
+          cases h1 : rangeSpec t cj <;> cases h2 : value fuel top true [] vj <;> simp_all
+  · rename_i vj counts
+    simp only [J.size, J.sizeL] at hx
+    have hv : (value fuel top true [] vj).isPanic = false := ih _ _ _ _ (by omega)
+    have hr := rangeSeq_np t counts
+    split
+    · rfl
+    · rename_i q hq; rw [hq] at hv; simp at hv
+    · split
+      · rfl
+      · rfl
+      · rename_i q hq; rw [hq] at hr; simp at hr
+  · rfl
+
+theorem value_np : ∀ (fuel : Nat) (top : Str) (inRange : Bool) (key : Str) (j : J), J.size j < fuel →
+    (value fuel top inRange key j).isPanic = false := by
+  intro fuel
+  induction fuel with
+  | zero => intro _ _ _ j h; omega
+  | succ fuel ih =>
+    intro top inRange key j hs
+    cases j with
+    | str s => simp only [value]; exact Parse.newF_np _ _ (Nat.lt_succ_self _)
+    | bool b => simp [value]
+    | signed i => simp [value]
+    | unsigned n => simp [value]
+    | float d => simp [value]
+    | null => simp only [value]; split <;> rfl
+    | obj l =>
+      simp only [J.size] at hs
+      simp only [value]
+      split
+      · rfl
+      · have := localeKeys_np fuel top ih l [] (by omega)
+        split
+        · rfl
+        · rfl
+        · rename_i q hq; rw [hq] at this; simp at this
+    | arr l =>
+      simp only [J.size] at hs
+      cases l with
+      | nil => simp only [value]; split <;> rfl
+      | cons first rest =>
+        have hp : ∀ t, ∀ l : List J, J.sizeL l ≤ fuel → (value.pairs (pairF fuel top) t l).isPanic = false :=
+          fun t l hl => pairs_np _ t l (fun x hx => pairF_np fuel top ih t x (by have := mem_sizeL hx; omega))
+        simp only [J.sizeL] at hs
+        have hp1 := fun t => hp t rest (by omega)
+        have hp2 := fun t => hp t (first :: rest) (by simp only [J.sizeL]; omega)
+        cases first <;> simp only [value]
+        all_goals first
+          | (split <;> rfl; done)
+          | skip
+        all_goals
+          split
+          · rfl
+          · skip
+            repeat' split
+            all_goals first
+              | rfl
+              | skip
+            all_goals
+              rename_i hq
+              repeat' split at hq
+              all_goals first
+                | (simp at hq; done)
+                | (rename_i h3
+                   first
+                    | (rename_i tt _ _ _
+                       have h4 : value.pairs (pairF fuel top) tt rest = .panic _ := h3
+                       have := hp1 tt; rw [h4] at this; simp at this; done)
+                    | (have := hp2 RangeTy.i32; erw [h3] at this; simp at this; done))
+
+theorem locale_np (name : Str) (j : J) : (locale name j).isPanic = false := by
+  unfold locale
+  split
+  · rename_i l
+    have h := value_np (J.size (J.obj l) + 1) name false name (J.obj l) (Nat.lt_succ_self _)
+    simp only [value] at h ⊢
+    split
+    · rfl
+    · rename_i pv hne hv
+      simp only [Bool.false_eq_true, if_false] at hv
+      split at hv
+      · rename_i keys _
+        simp only [Res.ok.injEq] at hv
+        exact absurd hv.symm (hne _)
+      · simp at hv
+      · simp at hv
+    · rfl
+    · rename_i q hq; rw [hq] at h; simp at h
+  · rfl
+
+end Decode
+end I18nVerif
